@@ -856,6 +856,38 @@ func (g *gen) tplDiscloseMixed() {
 	g.tag("disclose-mixed-remote-subscribers")
 }
 
+// tplTestaments: a session stores testaments in both scopes, flushes one
+// scope (or none), then ends in one of the possible ways.
+func (g *gen) tplTestaments() {
+	if len(g.alive) < 2 {
+		return
+	}
+	s := g.alive[1+g.r.IntN(len(g.alive)-1)]
+	for i, scope := range []string{"detached", "destroyed", g.pick([]string{"detached", "destroyed", ""})} {
+		kw := Dict(KV{"publish_options", Dict()})
+		if scope != "" {
+			kw.D = append(kw.D, KV{"scope", Str(scope)})
+		}
+		g.metaCall(s, "wamp.session.add_testament", List(Str(g.pick(exactURIs)), List(Int('l', int64(i))), Dict()), kw)
+	}
+	switch g.r.IntN(3) {
+	case 0:
+		g.metaCall(s, "wamp.session.flush_testaments", Val{}, Dict(KV{"scope", Str("detached")}))
+	case 1:
+		g.metaCall(s, "wamp.session.flush_testaments", Val{}, Dict())
+	}
+	switch g.r.IntN(3) {
+	case 0:
+		g.msg(s, &Msg{Kind: "bye"})
+	case 1:
+		g.sc.Ops = append(g.sc.Ops, Op{Kind: "drop", Realm: g.realm[s], Sess: s})
+	default:
+		g.metaCall(g.alive[0], "wamp.session.kill", List(SidRef('d', s)), Dict())
+	}
+	g.remove(s)
+	g.tag("testaments-both-scopes")
+}
+
 // tplDuplicateAnswers: a callee answers the same invocation twice (final
 // YIELD then another YIELD or ERROR), also while the caller is still sending
 // chunks of a progressive call.
@@ -1027,6 +1059,9 @@ func Generate(profile string, seed uint64, idx int, maxOps, maxSess int) *Scenar
 		}
 		if (base == "pubsub" || base == "mixed") && realms == 1 && g.chance(0.012) && g.next < 30 {
 			g.tplDiscloseMixed()
+		}
+		if (base == "lifecycle" || base == "meta" || base == "mixed") && g.chance(0.02) {
+			g.tplTestaments()
 		}
 		if (base == "rpc" || base == "lifecycle" || base == "mixed") && g.chance(0.02) {
 			g.tplShared()
